@@ -176,3 +176,74 @@ func H_C09_Embedded() {
 		}
 	}
 }
+
+// H_C09_EmbeddedPermitted: the restriction does not reject permitted, supported combinations inside the composite parsers: well-formed RouterInfo, LeaseSet, LeaseSet2 and MetaLeaseSet encodings with a permitted pair are accepted and hand out that identity.
+//
+//verif:props C09
+//verif:witness accepted
+func H_C09_EmbeddedPermitted() {
+	pairs := [][2]int{{7, 4}, {7, 0}, {11, 4}, {1, 0}, {0, 0}, {2, 0}, {-1, 0}}
+	p := pairs[nd.IntRange(0, len(pairs)-1)]
+	sig, cry := p[0], p[1]
+	want := destSigType(sig)
+	switch nd.IntRange(0, 3) {
+	case 0:
+		if sig == 11 {
+			return // RedDSA is not permitted for router identities
+		}
+		in, _ := riShape{sig, cry, 0, nil, 0, 0}.build()
+		ri, _, err := router_info.ReadRouterInfo(in)
+		cAssert(err == nil, "ReadRouterInfo/permitted-pair-accepted")
+		if err == nil {
+			nd.Cover("accepted")
+			s, _ := declaredTypes(ri.RouterIdentity().KeysAndCert)
+			cAssert(s == want, "ReadRouterInfo/identity-declares-input-type")
+		}
+	case 1:
+		if cry != 0 {
+			return // the legacy LeaseSet carries an ElGamal encryption key; keep the destination ElGamal too
+		}
+		in, _ := lsShape{sig, cry, 0, 1, 0}.build()
+		dl := destLen(sig, 0)
+		nd.Assume(in[dl] == 0 && in[dl+255] >= 2) // ElGamal key in the certainly-valid region
+		if sig == 0 || sig < 0 {
+			sp := dl + 256
+			nd.Assume(in[sp] == 0 && in[sp+127] >= 2) // DSA revocation key likewise
+		}
+		ls, err := lease_set.ReadLeaseSet(in)
+		cAssert(err == nil, "ReadLeaseSet/permitted-pair-accepted")
+		if err == nil {
+			nd.Cover("accepted")
+			d := ls.Destination()
+			s, _ := declaredTypes(d.KeysAndCert)
+			cAssert(s == want, "ReadLeaseSet/destination-declares-input-type")
+		}
+	case 2:
+		off := []int{-1, 7}[nd.IntRange(0, 1)]
+		nl := 1
+		if sig < 0 || sig == 0 {
+			nl = 2 // reach the 499-byte minimum with a 40-byte DSA signature
+		}
+		in, _ := ls2Shape{sig, cry, 0, off, 0, []int{32}, nl, 0}.build()
+		ls, _, err := lease_set2.ReadLeaseSet2(in)
+		cAssert(err == nil, "ReadLeaseSet2/permitted-pair-accepted")
+		if err == nil {
+			nd.Cover("accepted")
+			d := ls.Destination()
+			s, _ := declaredTypes(d.KeysAndCert)
+			cAssert(s == want, "ReadLeaseSet2/destination-declares-input-type")
+		}
+	case 3:
+		in, _ := metaShape{sig, cry, 0, -1, 0, []int{0, 0}, 0}.build()
+		e0 := destLen(sig, 0) + 8 + 2 + 1
+		nd.Assume(in[e0+32] == 3 && in[e0+40+32] == 5) // entry types are validated (1, 3, 5)
+		m, _, err := meta_leaseset.ReadMetaLeaseSet(in)
+		cAssert(err == nil, "ReadMetaLeaseSet/permitted-pair-accepted")
+		if err == nil {
+			nd.Cover("accepted")
+			d := m.Destination()
+			s, _ := declaredTypes(d.KeysAndCert)
+			cAssert(s == want, "ReadMetaLeaseSet/destination-declares-input-type")
+		}
+	}
+}
